@@ -123,7 +123,7 @@ func judgeHuman(c *Ctx, cs []map[string]interface{}) map[string][]string {
 
 func checkC12(c *Ctx) {
 	c.Ev.Level = "model_checking"
-	c.Ev.Rule = "HumanMC: for both prefix systems TLC generates (BigNat) the neighbourhoods of every rounding boundary (D+1/2)*M/10^d for boundary numerals D, of every precision boundary M*10^j and prefix boundary base^k, all values below 1031 and the neighbourhoods of 2^32 and 2^64, and checks that the rules are satisfiable; each value plus seeded stratified random 64-bit values goes through the real Humaner.FormatNumber; HumanJudge (exact arithmetic) judges prefix, exactness below the first prefix, decimals, half-unit bound, >=3 significant digits, <=5 characters, and monotonicity between neighbours; distinct = distinct (base, value)"
+	c.Ev.Rule = "HumanMC: for both prefix systems TLC generates (BigNat) the neighbourhoods of every rounding boundary (D+1/2)*M/10^d for boundary numerals D, of every precision boundary M*10^j and prefix boundary base^k, all values below 1031 and the neighbourhoods of 2^32 and 2^64, and checks that the rules are satisfiable; each value plus seeded stratified random 64-bit values goes through the real Humaner.FormatNumber; HumanJudge (exact arithmetic) judges prefix, exactness below the first prefix, decimals, half-unit bound, >=3 significant digits, <=5 characters, and monotonicity between neighbours; every row of the real table (TableString) for ~290 uniform value vectors around the shape changes of both prefix systems x 14 thresholds, each value cell judged by OutputJudge with the row's own base and unit; distinct = distinct (base, value)"
 	env := newScanEnv(c, false, true)
 	// FormatNumber as coded (integer arithmetic), for ALL 64-bit values, by Apalache: clause by clause of C12 on the
 	// transcription HumanApa (its binding to the code is HumanJudge below); runs beside the rest of the check
@@ -231,6 +231,10 @@ func checkC12(c *Ctx) {
 	c.Ev.TracesValid += int64(len(all) - len(bad))
 	c.mu.Unlock()
 	c.Note("%d renderings of the real FormatNumber judged by TLC in exact arithmetic; %d rejected", len(all), len(bad))
+
+	// the callers of the formatter: every row of the table, with the prefix system and unit of that row (OutputJudge
+	// judges each value cell with Human!Admissible for the row's base), for values around the shape changes of both systems
+	runOutputCases(c, env.api, uniformRowCases(), isHumanPred)
 }
 
 func replayHuman(c *Ctx, raw json.RawMessage) bool {
